@@ -29,6 +29,10 @@ pub struct Stats {
     pub reads: u64,
     pub short_reads: u64,
     pub eintr_reads: u64,
+    #[serde(default)]
+    pub clock_jumps: u64,
+    #[serde(default)]
+    pub clock_reads: u64,
     pub interleaving_sig: u64,
 }
 
@@ -44,6 +48,8 @@ impl From<oh_verif_rt::ExecStats> for Stats {
             reads: s.reads,
             short_reads: s.short_reads,
             eintr_reads: s.eintr_reads,
+            clock_jumps: s.clock_jumps + oh_verif_rt::time::stats().1,
+            clock_reads: oh_verif_rt::time::stats().0,
             interleaving_sig: s.interleaving_sig,
         }
     }
@@ -70,6 +76,7 @@ fn rt_cfg(c: &ExecCfg) -> oh_verif_rt::ExecConfig {
         read_short_permille: c.read_short_permille,
         read_eintr_permille: c.read_eintr_permille,
         schedule_call_limit: 0,
+        clock_jump_permille: c.clock_jump_permille,
     }
 }
 
